@@ -111,6 +111,10 @@ def build(rng, g, depth):
         t = G.decl_array(vartype=vt, rows=rr if rng.random() < 0.7 else None, cols=cc if rng.random() < 0.7 else None, name=nm, param_p=0.0)
         if t:
             lines.extend(t.split("\n"))
+    if G.scalars and rng.random() < 0.12:
+        # a template parameter that shares its name with a declared variable, used before the declaration
+        nm = rng.choice(list(G.scalars))
+        lines.insert(2, "Pre({%s}, 0.5) | 9" % nm)
     e = G.expr(depth, "ifc")
     slot = rng.choice(SLOTS)
     if slot == "arg":
@@ -216,7 +220,7 @@ def run(ctx):
         except (RuntimeError, RecursionError):
             ctx.out_of_domain("generator gave up")
             continue
-        check_text(ctx, text, e, slot)
+        check_text(ctx, text, e, slot, tags=["parameter-named-like-a-variable"] if "\nPre({" in text else [])
     undo()
 
 
